@@ -63,6 +63,14 @@ let dispatch fn args = match fn, args with
   | "split_span", [t; s] -> str_docs (split_span (tree_of_string t) (z_of_hex s))
   | "split_along", [t; l] -> str_docs (split_along (tree_of_string t) (zlist_of_string l))
   | "merge", d :: docs -> str_doc true (merge_create (List.map tree_of_string docs) (bool_of_str d))
+  | "renumber", [dsize; nsrc] ->
+    (* the fresh numbers handed to nsrc source objects for a destination of the given Size: min-max-count *)
+    let n = int_of_z (z_of_hex nsrc) in
+    let keys = List.init n (fun i -> z_of_int (i + 1)) in
+    let nn = List.map int_of_z (new_numbers keys (z_of_hex dsize)) in
+    if nn = [] then "none" else
+      Printf.sprintf "%x-%x-%x" (List.fold_left min max_int nn) (List.fold_left max min_int nn)
+        (List.length (List.sort_uniq compare nn))
   | "zip", [a; b] -> str_doc false (zip_merge (tree_of_string a) (tree_of_string b))
   | _ -> failwith ("unknown function " ^ fn)
 let () = main dispatch
